@@ -55,10 +55,15 @@ func CombineMultipartDeliverSM(on func([]*DeliverSM)) func(*DeliverSM) {
 		header := p.Message.UDHeader.ConcatenatedHeader()
 		if header == nil {
 			on([]*DeliverSM{p})
+		} else if header.Sequence == 0 || header.Sequence > header.TotalParts {
+			return
 		} else {
 			id := key{p.SourceAddr, p.DestAddr, header.Reference}
 			if _, ok := registry[id]; !ok {
 				registry[id] = make([]*DeliverSM, header.TotalParts)
+			}
+			if len(registry[id]) != int(header.TotalParts) {
+				return
 			}
 			registry[id][header.Sequence-1] = p
 			if isDone(id, header.TotalParts) {
